@@ -247,4 +247,175 @@ theorem PoolInv.poolRelease (w : World) (p : Pid) (pl n : Nat) (hi : PoolInv w) 
       · show x.inUse - n = amounts (abs h'); omega
       · show x.inUse - n ≤ x.cap; omega
 
+/-! ### the end of a process: every pool it holds is given back -/
+
+/-- while `drop_resources` walks the list of held objects of `p` (already detached from `p`): everything is
+    consistent except that `p` may still have records in the pools that are still to come -/
+structure DropInv (w : World) (p : Pid) (rest : List HoldRef) : Prop where
+  size : w.procs.size < 2 ^ 31
+  ok : ∀ pl v, poolView w pl = some v → ViewOK w.procs.size v
+  linkOther : ∀ pl v, poolView w pl = some v → ∀ q, q ≠ p →
+    (HoldRef.pool pl ∈ (w.proc q).held ↔ q + 1 ∈ keys (abs v.holders))
+  pending : ∀ pl v, poolView w pl = some v → p + 1 ∈ keys (abs v.holders) → HoldRef.pool pl ∈ rest
+  detached : ∀ pl, HoldRef.pool pl ∉ (w.proc p).held
+
+theorem DropInv.viewSame {w w' : World} {p : Pid} {rest : List HoldRef} (h : DropInv w p rest) (hs : ViewSame w w') :
+    DropInv w' p rest where
+  size := by rw [hs.size]; exact h.size
+  ok pl v hv := by rw [hs.size]; exact h.ok pl v (by rw [← hs.view]; exact hv)
+  linkOther pl v hv q hq := by rw [hs.held q]; exact h.linkOther pl v (by rw [← hs.view]; exact hv) q hq
+  pending pl v hv hk := h.pending pl v (by rw [← hs.view]; exact hv) hk
+  detached pl := by rw [hs.held p]; exact h.detached pl
+
+theorem DropInv.close {w : World} {p : Pid} (h : DropInv w p []) : PoolInv w := by
+  refine ⟨h.size, fun pl v hv => ⟨h.ok pl v hv, fun q => ?_⟩⟩
+  by_cases hq : q = p
+  · subst hq
+    constructor
+    · intro hm; exact absurd hm (h.detached pl)
+    · intro hk; exact absurd (h.pending pl v hv hk) (by simp)
+  · exact h.linkOther pl v hv q hq
+
+/-- both the amount in use and the holder list of pool `pl` are replaced -/
+theorem setBoth_view {w : World} {pl : Nat} {x : Pool} (hx : w.pools[pl]? = some x) (u : Nat) (h' : HH) (pl' : Nat) :
+    poolView { w with pools := w.pools.set! pl { x with inUse := u, holders := h' } } pl' =
+      if pl' = pl then some ⟨x.cap, u, h'⟩ else poolView w pl' := by
+  unfold poolView
+  show ((w.pools.set! pl _)[pl']?).map Pool.view = _
+  rw [poolView_set hx]
+  rfl
+
+theorem DropInv.dropHolder {w : World} {p : Pid} {rest : List HoldRef} (pl : Nat) (h : DropInv w p (.pool pl :: rest)) :
+    DropInv (poolDropHolder w pl p) p rest := by
+  have hweak : DropInv w p (.pool pl :: rest) → (∀ v, poolView w pl = some v → p + 1 ∉ keys (abs v.holders)) →
+      DropInv w p rest := by
+    intro h hno
+    refine ⟨h.size, h.ok, h.linkOther, ?_, h.detached⟩
+    intro pl' v hv hk
+    rcases List.mem_cons.1 (h.pending pl' v hv hk) with e | e
+    · injection e with e; subst e; exact absurd hk (hno v hv)
+    · exact e
+  unfold Sim.poolDropHolder
+  split
+  · rename_i hnone
+    refine hweak h ?_
+    intro v hv; unfold poolView at hv; rw [hnone] at hv; cases hv
+  · rename_i x hx
+    have hv := poolView_of_get hx
+    have vok := h.ok pl _ hv
+    have hok : HoldersOK w.procs.size x.holders := vok.toHoldersOK
+    have hsum : x.inUse = amounts (abs x.holders) := vok.sum
+    have hcap : x.inUse ≤ x.cap := vok.inCap
+    by_cases hk : p + 1 ∈ keys (abs x.holders)
+    · obtain ⟨i, hi, hki⟩ := (HashHeap.mem_keys_abs x.holders (p + 1)).1 hk
+      have hfi := HashHeap.findIndex_of_mem hok.wf hi
+      rw [hki] at hfi
+      have hi0 : i ≠ 0 := by have := hi.1; omega
+      rw [hfi]
+      have hamt : (x.holders.heap.getD i {}).item.b = amountOf (abs x.holders) (p + 1) := by
+        have hmem : KPQ.norm (x.holders.tag i) ∈ abs x.holders := (HashHeap.mem_abs _ _).2 ⟨i, hi, rfl⟩
+        have := HashHeap.amountOf_of_mem hok.wf.keys_nodup hmem
+        simp only [KPQ.norm] at this
+        rw [hki] at this
+        exact this.symm
+      split
+      · rename_i heq; injection heq with heq; exact absurd heq hi0
+      · rename_i i' _ heq
+        injection heq with heq
+        subst heq
+        dsimp only
+        split
+        · rename_i h' found hr
+          obtain ⟨ok', hsum', hkeys', _, _, _⟩ := remove_holders hok p hr
+          refine DropInv.viewSame ?_ (ViewSame.trans (recordPool_viewSame _ pl) (ViewSame.of_same (signal_same _ x.guard)))
+          have hvw := setBoth_view hx (x.inUse - (x.holders.heap.getD i {}).item.b) h'
+          refine ⟨h.size, ?_, ?_, ?_, h.detached⟩
+          · intro pl' v hv'
+            rw [hvw] at hv'
+            split at hv'
+            · cases hv'
+              refine ⟨ok', ?_, ?_⟩
+              · show x.inUse - _ = amounts (abs h'); rw [hamt]; omega
+              · show x.inUse - _ ≤ x.cap; omega
+            · exact h.ok pl' v hv'
+          · intro pl' v hv' q hq
+            rw [hvw] at hv'
+            split at hv'
+            · rename_i e; subst e; cases hv'
+              show _ ↔ q + 1 ∈ keys (abs h')
+              rw [hkeys']
+              have := h.linkOther pl' _ hv q hq
+              constructor
+              · intro hm; exact ⟨this.1 hm, fun e => hq (Nat.add_right_cancel e)⟩
+              · intro hm; exact this.2 hm.1
+            · exact h.linkOther pl' v hv' q hq
+          · intro pl' v hv' hk'
+            rw [hvw] at hv'
+            split at hv'
+            · cases hv'
+              exact absurd rfl ((hkeys' (p + 1)).1 hk').2
+            · rename_i hne
+              rcases List.mem_cons.1 (h.pending pl' v hv' hk') with e | e
+              · injection e with e; exact absurd e hne
+              · exact e
+        · rename_i f hr
+          obtain ⟨s', hrun, _⟩ := HashHeap.remove_abs hok.wf (p + 1) (by simp)
+          rw [hrun] at hr; cases hr
+      · rename_i heq; cases heq
+    · rw [HashHeap.findIndex_of_not_mem hok.wf hk]
+      refine hweak h ?_
+      intro v hv'; rw [hv] at hv'; cases hv'; exact hk
+
+theorem PoolInv.dropResources (w : World) (p : Pid) (hi : PoolInv w) : PoolInv (dropResources w p) := by
+  unfold Sim.dropResources
+  dsimp only
+  -- after detaching the list from `p`
+  have h0 : DropInv (w.modProc p fun x => { x with held := [] }) p (w.proc p).held := by
+    have hsz : (w.modProc p fun x => { x with held := [] }).procs.size = w.procs.size := modProc_size _ _ _
+    refine ⟨by rw [hsz]; exact hi.1, ?_, ?_, ?_, ?_⟩
+    · intro pl v hv; rw [hsz]; exact (hi.2 pl v hv).1
+    · intro pl v hv q hq
+      rw [proc_modProc, if_neg (fun e => hq e.1)]
+      exact (hi.2 pl v hv).2 q
+    · intro pl v hv hk
+      exact ((hi.2 pl v hv).2 p).2 hk
+    · intro pl
+      rw [proc_modProc]
+      split
+      · simp
+      · rename_i hn
+        have : ¬ p < w.procs.size := fun e => hn ⟨rfl, e⟩
+        rw [proc_default_of_ge this]; simp
+  generalize (w.proc p).held = hs at h0
+  generalize (w.modProc p fun x => { x with held := [] }) = w0 at h0
+  induction hs generalizing w0 with
+  | nil => exact h0.close
+  | cons a rest ih =>
+    rw [List.foldl_cons]
+    apply ih
+    cases a with
+    | res r =>
+      dsimp only
+      have hweak : DropInv w0 p rest := by
+        refine ⟨h0.size, h0.ok, h0.linkOther, ?_, h0.detached⟩
+        intro pl v hv hk
+        rcases List.mem_cons.1 (h0.pending pl v hv hk) with e | e
+        · cases e
+        · exact e
+      split
+      · rename_i x hx
+        refine hweak.viewSame (ViewSame.of_fp (m := mRes) ?_ rfl rfl)
+        refine Fp.trans (Fp.trans ?_ (recordRes_fp _ r)) (Same.fp _ (signal_same _ x.guard))
+        simp [Fp, World.now, World.proc]
+      · exact hweak
+    | pool pl => exact h0.dropHolder pl
+
+theorem PoolInv.finishProc (w : World) (p : Pid) (v : Int) (st : Bool) (hi : PoolInv w) : PoolInv (finishProc w p v st) := by
+  unfold Sim.finishProc
+  dsimp only
+  refine PoolInv.same (modProc_same _ _ _ (fun _ => rfl)) (PoolInv.same (wakeWaiters_same _ _ _) ?_)
+  split
+  · exact PoolInv.dropResources _ _ (hi.same (cancelAwaiteds_same _ _))
+  · exact (PoolInv.dropResources _ _ hi).same (cancelAwaiteds_same _ _)
+
 end CimbaModel.Sim
